@@ -66,7 +66,7 @@ def run(chk):
 
     def collect(entry, rs, ignore_budget=False):
         for r in rs:
-            if r.outcome in ("error", "budget"):
+            if r.outcome in ("error", "budget", "stuck"):
                 if r.outcome == "budget" and ignore_budget:
                     continue
                 chk.undecided_("INVENTORY/%s/exploration" % entry, "exploration of %s failed: %s %s" % (entry, r.outcome, r.detail))
@@ -142,6 +142,8 @@ def run(chk):
     for meth, extra in (("next_block", []), ("next_block_byte", []), ("rewind", [])):
         w = Walker(prog, loop_bound=2, max_paths=3000)
         w.opaque_paths |= {ld.READ_EXACT, ld.SEEK}
+        if meth == "next_block":
+            w.opaque_paths.add(tn.method("next_block_byte"))   # explored on its own below
         w.effect_hook = lambda w_, st, path, a, d, wh: EffectResult(None, havoc=(path == ld.READ_EXACT))
         st = tap_state(w, prog, tn)
         rs = w.run(prog.fn(tn.method(meth)), [Ref(TAPOBJ, (), True)] + extra, genv={"A": TAPA}, state=st)
@@ -205,7 +207,8 @@ def vtx(chk, prog, collect):
     w.effect_hook = hook
     for p in prog.fns:
         if "Lh5Decoder" in p or "LhaV2Decoder" in p or "from_utf8_lossy" in p or p.endswith("::collect") or p.endswith("::split") or "Iterator::map" in p \
-                or p.endswith("Vec::<T, A>::pop") or p.endswith("Vec::<T, A>::push") or "ReadBytesExt" in p or p.endswith("Vec::<T>::with_capacity"):
+                or p.endswith("Vec::<T, A>::pop") or p.endswith("Vec::<T, A>::push") or "ReadBytesExt" in p or p.endswith("Vec::<T>::with_capacity") \
+                or p.endswith("io::Read::read_exact") or p.endswith("io::default_read_exact"):
             w.opaque_paths.add(p)
     st = w.new_state()
     rs = w.run(prog.fn(VTXL), [Opaque("reader")], genv={"R": ("param", "R", 0)}, state=st)
@@ -223,7 +226,7 @@ def vtx(chk, prog, collect):
     zero_read["on"] = True
     st = w.new_state()
     rs = w.run(prog.fn(VTXL), [Opaque("reader")], genv={"R": ("param", "R", 0)}, state=st)
-    stuck = [r for r in rs if r.outcome == "cut" and any(e.path.endswith("io::Read::read") for e in r.trace)]
+    stuck = [r for r in rs if r.outcome in ("cut", "stuck", "budget") and any(e.path.endswith("io::Read::read") for e in r.trace)]
     chk.check(not stuck, "EOF/Vtx::load/strings-loop", "the header string scan keeps calling read() after it returned 0: a file that ends inside the strings never finishes loading (%s)" % (
         stuck[0].detail if stuck else ""))
     chk.count("eof-loops")
